@@ -39,29 +39,31 @@ def main():
         demo = os.path.join(tmp, "demo_test.go")
         shutil.copy(os.path.join(sd, "patch.diff"), patch)
         shutil.copy(os.path.join(sd, "demo_test.go"), demo)
+        demo_dir = old.get("demo_dir", "seeddemo")
     else:
         out, k, name = sys.argv[1], sys.argv[2], sys.argv[3]
         meta = json.load(open(os.path.join(out, "meta%s.json" % k)))
         checks = sys.argv[4:] or [meta["property"]]
         patch = os.path.join(out, "patch%s.diff" % k)
         demo = os.path.join(out, "demo%s_test.go" % k)
+        demo_dir = "seeddemo%s" % k       # the directory the reviewer used: some demonstrations mention their package path
     wt = "/tmp/wt_seed_%s" % name
     sh("git -C /repo worktree remove --force %s" % wt)
     rc, o = sh("git -C /repo worktree add --detach %s" % wt)
     assert rc == 0, o
     res = {"property": meta["property"], "summary": meta.get("summary"), "needs": meta.get("needs"),
-           "files": meta.get("files"), "agent_ran": meta.get("ran"), "confirmed": {}, "checks": {}}
+           "files": meta.get("files"), "agent_ran": meta.get("ran"), "demo_dir": demo_dir, "confirmed": {}, "checks": {}}
     try:
-        ddir = os.path.join(wt, "seeddemo")
+        ddir = os.path.join(wt, demo_dir)
         os.makedirs(ddir)
         shutil.copy(demo, os.path.join(ddir, "demo_test.go"))
-        rc0, o0 = sh("go test -vet=off -count=1 ./seeddemo/...", cwd=wt)
+        rc0, o0 = sh("go test -vet=off -count=1 ./%s/..." % demo_dir, cwd=wt)
         res["confirmed"]["demo_passes_without_change"] = rc0 == 0
         rc, o = sh("git apply %s" % patch, cwd=wt)
         res["confirmed"]["patch_applies"] = rc == 0
         rc, o = sh("go build ./...", cwd=wt)
         res["confirmed"]["builds"] = rc == 0
-        rc1, o1 = sh("go test -vet=off -count=1 ./seeddemo/...", cwd=wt)
+        rc1, o1 = sh("go test -vet=off -count=1 ./%s/..." % demo_dir, cwd=wt)
         res["confirmed"]["demo_fails_with_change"] = rc1 != 0
         shutil.rmtree(ddir)
         rc, o = sh("go test -vet=off -count=1 ./...", cwd=wt)
